@@ -27,8 +27,11 @@ pub fn make_case(class: &str, seed: u64, case_no: u64) -> Case {
   }
   if class.contains("inj-up") { gen::inject(&mut rng, &mut prog, gen::Inject::UserPanic); }
   if class.contains("inj-any") {
+    // "inj-anyp" additionally injects task panics (used by C19; C20 is about diagnosed violations only: a task that
+    // panics in the current state makes every from-scratch build abort before it can reach anything else)
+    let kinds: &[gen::Inject] = if class.contains("inj-anyp") { &[gen::Inject::HiddenRead, gen::Inject::HiddenWrite, gen::Inject::Overlap, gen::Inject::Cycle, gen::Inject::UserPanic] } else { &[gen::Inject::HiddenRead, gen::Inject::HiddenWrite, gen::Inject::Overlap, gen::Inject::Cycle] };
     let n = rng.range(1, 3);
-    for _ in 0..n { let what = *rng.pick(&[gen::Inject::HiddenRead, gen::Inject::HiddenWrite, gen::Inject::Overlap, gen::Inject::Cycle, gen::Inject::UserPanic]); gen::inject(&mut rng, &mut prog, what); }
+    for _ in 0..n { let what = *rng.pick(kinds); gen::inject(&mut rng, &mut prog, what); }
   }
   Case { prog, init, steps }
 }
